@@ -229,9 +229,41 @@ class Ctx:
         self.notes["trace_states"] = self.notes.get("trace_states", 0) + sum(d for _, d in res)
         return [by_id[o["id"]] for o in obs]
 
+    # ---- streaming variant of step 5 for runs too large to keep every observation in memory
+    def stream_begin(self):
+        self._st = {"n": 0, "keys": set(), "viol": [], "known": {}, "samples": []}
+
+    def stream_add(self, results, nontrivial, finding_key=None):
+        findings = [f for f in load_findings() if f["property"] == self.pid]
+        open_keys = {f["key"] for f in findings if f.get("status") == "open"}
+        st = self._st
+        for o, v in results:
+            st["n"] += 1
+            k = nontrivial(o)
+            if k is not None:
+                st["keys"].add(hash(k))
+            if v.get("fails"):
+                key = finding_key(o, v) if finding_key else None
+                if key is not None and key in open_keys:
+                    st["known"][key] = st["known"].get(key, 0) + 1
+                elif len(st["viol"]) < 5000:
+                    st["viol"].append((o, v))
+                else:
+                    st["viol_more"] = st.get("viol_more", 0) + 1
+
+    def stream_finish(self, rule, samples, extra_cov=None, level="model_checking"):
+        st = self._st
+        res = list(st["viol"])
+        known_counts = st["known"]
+        rc = self.finish(res, rule=rule, nontrivial=lambda o: None, samples=samples, level=level,
+                         extra_cov=dict(extra_cov or {}, streamed=True), finding_key=None,
+                         override={"n": st["n"], "distinct": len(st["keys"]), "known": known_counts,
+                                   "more": st.get("viol_more", 0)})
+        return rc
+
     # ---- step 5: verdicts -> exit code, evidence
     def finish(self, results: list[tuple[dict, dict]], rule: str, nontrivial, samples: list, level="model_checking",
-               extra_cov: dict | None = None, finding_key=None, exhaustive=False) -> int:
+               extra_cov: dict | None = None, finding_key=None, exhaustive=False, override=None) -> int:
         """results: list of (observation, verdict). `nontrivial(obs)` -> hashable key or None.
         `finding_key(obs, verdict)` -> key string of a known-finding shape or None."""
         findings = [f for f in load_findings() if f["property"] == self.pid]
@@ -248,6 +280,9 @@ class Ctx:
             violations.append((o, v))
         for key, lst in known.items():
             print(f"KNOWN-FINDING: property={self.pid} {key}: {open_keys[key]['what']} ({len(lst)} cases this run)")
+        if override:
+            for key, cnt in override["known"].items():
+                print(f"KNOWN-FINDING: property={self.pid} {key}: {open_keys[key]['what']} ({cnt} cases this run)")
         vf = OUT / f"{self.pid}_violations.ndjson"
         if vf.exists():
             vf.unlink()
@@ -274,12 +309,14 @@ class Ctx:
             k = nontrivial(o)
             if k is not None:
                 distinct.add(k)
+        nres = override["n"] if override else len(results)
+        ndist = override["distinct"] if override else len(distinct)
         cov = {
             "states": self.states, "transitions": self.transitions,
-            "traces_validated_against_impl": len(results),
-            "evaluations": len(results), "distinct_nontrivial": len(distinct), "rule": rule,
+            "traces_validated_against_impl": nres,
+            "evaluations": nres, "distinct_nontrivial": ndist, "rule": rule,
             "samples": samples[:4], "model_checks": self.mc, "exhaustive": exhaustive,
-            "known_finding_cases": {k: len(v) for k, v in known.items()},
+            "known_finding_cases": dict({k: len(v) for k, v in known.items()}, **(override["known"] if override else {})),
         }
         cov.update(self.notes)
         cov.update(extra_cov or {})
@@ -287,7 +324,8 @@ class Ctx:
               "assumptions": self.assumptions, "wall_s": round(time.time() - self.t0, 1),
               "violations": len(violations)}
         (EVIDENCE / f"{self.pid}.json").write_text(json.dumps(ev, indent=1, default=str))
+        nknown = sum(len(v) for v in known.values()) + (sum(override["known"].values()) if override else 0)
         print(f"{self.pid}: tier={self.tier} seed={self.seed} model states={self.states} "
-              f"validated={len(results)} nontrivial={len(distinct)} violations={len(violations)} "
-              f"known={sum(len(v) for v in known.values())} wall={ev['wall_s']}s")
+              f"validated={nres} nontrivial={ndist} violations={len(violations) + (override['more'] if override else 0)} "
+              f"known={nknown} wall={ev['wall_s']}s")
         return 1 if violations else 0
